@@ -269,7 +269,7 @@ REQUIRED_COUNTERS = [
     "branch_edit_written", "branch_edit_makes_case_twin", "branch_resolve_creates_blob",
     "readsum_cases", "readsum_cases_over_limit", "edge_cases_size_limit+1", "edge_cases_size_limit+0", "edge_cases_size_limit-1",
     # interleavings, large blobs, odd directories
-    "conc_cases_all-good", "conc_cases_bad-cowriter", "conc_full_size_states", "big_runs_killed", "hist_cases_weird_dir",
+    "conc_cases_all-good", "conc_cases_bad-cowriter", "conc_full_size_states", "conc_cases_with_import", "big_runs_killed", "hist_cases_weird_dir",
 ]
 
 
